@@ -75,7 +75,8 @@ def roundingDivideByPOT (x : Int) (exponent : Nat) : Int :=
 /-- the mathematical meaning of `RoundingDivideByPOT`: `x / 2^e` rounded to nearest, ties away from
     zero.  `2·|x| + 2^e` over `2^(e+1)`, truncated, with the sign of `x`. -/
 def roundHalfAwayDiv (x : Int) (exponent : Nat) : Int :=
-  let n : Int := 2 * x.natAbs + 2 ^ exponent
+  let absx : Int := if x < 0 then -x else x
+  let n : Int := 2 * absx + 2 ^ exponent
   let q := n / 2 ^ (exponent + 1)
   if x < 0 then -q else q
 
